@@ -298,3 +298,738 @@ def translate_method(path, cls_name, method, prefix='gen_'):
 
 if __name__ == '__main__':
     print(translate_method(sys.argv[1], sys.argv[2], sys.argv[3]))
+
+
+# =====================================================================================================================
+# Second kind of kernel (round 3): methods of a class that UPDATE THE OBJECT (LinSpaceVM.step / change_state,
+# _TranslationState.set_voltage / _set_indexed_voltage).  The object becomes a Gallina record, a method becomes a function
+# record -> args -> res record (Err = the python exception kind), statement by statement.  The attribute types and the
+# python->Gallina primitive table (coq/C17/GenLib.v) are given by a schema; everything that is not in the accepted subset
+# raises Unsupported.
+#
+#   statements   x = e | x += e | self.f = e | self.f += e | self.f -= e | self.f[i] = e | self.f[i] -= e | self.f[i][k] = e
+#                self.f.append(e) | self.m(args) | x = obj.ext_method(kw=..) | assert c | raise NotImplementedError(..)
+#                return (bare) | pass | docstring | if/elif/else where a test is isinstance(x, Cls) [-> match on the
+#                constructor], `x is None` [-> match on the option], or a boolean expression
+#   expressions  names, self.f, x.field (x narrowed by isinstance / a DepState), int constants, + -, tuples, x.copy(),
+#                tuple(x), dataclass constructor calls, DepKey(()), DepKey.from_voltages(voltages=.., resolution=
+#                self.resolution), d.get(k, None), dd.setdefault(a, {}).get(b, None), comparisons, and/or/not, truth
+#                value of a float or a tuple, all(c for x in l); subscript reads l[i], d[k], l[i][k] (may raise)
+# Types are Gallina types written as python tuples: 'nat' 'Z' 'Q' 'bool' 'key' 'gcmd' 'depstate', ('list', T),
+# ('opt', T), ('dict', K, V), ('dict2', K1, K2, V), ('pair', A, B).
+
+def _gt(t):
+    if isinstance(t, str):
+        return t
+    if t[0] == 'list':
+        return 'list %s' % _gtp(t[1])
+    if t[0] == 'opt':
+        return 'option %s' % _gtp(t[1])
+    if t[0] == 'dict':
+        return 'list (%s * %s)' % (_gtp(t[1]), _gtp(t[2]))
+    if t[0] == 'dict2':
+        return 'list ((%s * %s) * %s)' % (_gtp(t[1]), _gtp(t[2]), _gtp(t[3]))
+    if t[0] == 'pair':
+        return '%s * %s' % (_gtp(t[1]), _gtp(t[2]))
+    raise Unsupported('type %r' % (t,))
+
+
+def _gtp(t):
+    s = _gt(t)
+    return s if isinstance(t, str) else '(%s)' % s
+
+
+EQB = {'nat': 'Nat.eqb', 'Z': 'Z.eqb', 'Q': 'Qeq_bool', 'key': 'key_eqb', ('pair', 'nat', 'key'): 'ck_eqb'}
+
+
+def _eqb(t):
+    if t not in EQB:
+        raise Unsupported('no equality for type %r' % (t,))
+    return EQB[t]
+
+
+class ObjSchema:
+    def __init__(self, cls, record, ctor, prefix, fields, methods, cmd_classes, externals=None):
+        self.cls, self.record, self.ctor, self.prefix = cls, record, ctor, prefix
+        self.fields = fields            # [(python attribute, type or None = not represented)]
+        self.methods = methods          # [(method name, [(param, type)])]
+        self.cmd_classes = cmd_classes  # [(class, [(field, annotation text, type or None)])]
+        self.externals = externals or {}
+
+
+class ObjTranslator:
+    def __init__(self, tree, schema, inductive='gcmd', ctor_prefix='G'):
+        self.tree, self.s = tree, schema
+        self.inductive, self.cp = inductive, ctor_prefix
+        self.cmds = {c: f for c, f in schema.cmd_classes}
+        self.ftypes = {f: t for f, t in schema.fields}
+        self.tmp = 0
+        classes = [n for n in tree.body if isinstance(n, ast.ClassDef) and n.name == schema.cls]
+        if len(classes) != 1:
+            raise Unsupported('class %s not found' % schema.cls)
+        self.cdef = classes[0]
+        self._check_fields()
+
+    # ---- schema checks against the source
+    def _check_fields(self):
+        ann = [s.target.id for s in self.cdef.body if isinstance(s, ast.AnnAssign) and isinstance(s.target, ast.Name)]
+        if ann:
+            found = ann
+        else:
+            init = [n for n in self.cdef.body if isinstance(n, ast.FunctionDef) and n.name == '__init__']
+            if len(init) != 1:
+                raise Unsupported('no __init__')
+            found = []
+            for sub in ast.walk(init[0]):
+                if isinstance(sub, (ast.Assign, ast.AnnAssign)):
+                    for t in (sub.targets if isinstance(sub, ast.Assign) else [sub.target]):
+                        if isinstance(t, ast.Attribute) and isinstance(t.value, ast.Name) and t.value.id == 'self' \
+                                and t.attr not in found:
+                            found.append(t.attr)
+        if sorted(found) != sorted(f for f, _ in self.s.fields):
+            raise Unsupported('attributes of %s are %s, schema has %s' % (self.s.cls, sorted(found), sorted(f for f, _ in self.s.fields)))
+
+    def check_cmd_classes(self):
+        for cname, fields in self.s.cmd_classes:
+            cl = [n for n in self.tree.body if isinstance(n, ast.ClassDef) and n.name == cname]
+            if len(cl) != 1:
+                raise Unsupported('command class %s not found' % cname)
+            if not any((isinstance(d, ast.Name) and d.id == 'dataclass') or
+                       (isinstance(d, ast.Call) and isinstance(d.func, ast.Name) and d.func.id == 'dataclass') for d in cl[0].decorator_list):
+                raise Unsupported('%s is not a dataclass' % cname)
+            got = [(s.target.id, _ann(s.annotation)) for s in cl[0].body if isinstance(s, ast.AnnAssign) and isinstance(s.target, ast.Name)]
+            if got != [(f, a) for f, a, _ in fields]:
+                raise Unsupported('fields of %s are %s' % (cname, got))
+
+    def inductive_text(self):
+        self.check_cmd_classes()
+        rows = []
+        for cname, fields in self.s.cmd_classes:
+            args = ' '.join('(%s : %s)' % (f, _gt(t)) for f, _, t in fields if t is not None)
+            rows.append('| %s%s %s' % (self.cp, cname, args))
+        return 'Inductive %s :=\n%s.' % (self.inductive, '\n'.join(r.rstrip() for r in rows))
+
+    def record_text(self):
+        fs_ = ';\n  '.join('%s%s : %s' % (self.s.prefix, f, _gt(t)) for f, t in self.s.fields if t is not None)
+        return 'Record %s := %s {\n  %s }.' % (self.s.record, self.s.ctor, fs_)
+
+    # ---- state access
+    def fget(self, f):
+        if self.ftypes.get(f) is None:
+            raise Unsupported('attribute self.%s is not represented' % f)
+        return '(%s%s st)' % (self.s.prefix, f), self.ftypes[f]
+
+    def fupd(self, f, val):
+        parts = [val if g == f else '(%s%s st)' % (self.s.prefix, g) for g, t in self.s.fields if t is not None]
+        return '(%s %s)' % (self.s.ctor, ' '.join(parts))
+
+    def fresh(self, base='tmp'):
+        self.tmp += 1
+        return '%s%d' % (base, self.tmp)
+
+    # ---- expressions.  env: local name -> type, or ('narrow', Cls) for a command narrowed by isinstance.
+    # `pre` collects the failing reads that must be bound before the expression: (lookup text, error, bound name)
+    def is_self_attr(self, e):
+        return isinstance(e, ast.Attribute) and isinstance(e.value, ast.Name) and e.value.id == 'self'
+
+    def const(self, e, want):
+        if isinstance(e.value, bool) or not isinstance(e.value, int):
+            raise Unsupported('constant %r' % (e.value,))
+        if want == 'nat':
+            return '%d%%nat' % e.value, 'nat'
+        if want == 'Q':
+            return '(inject_Z (%d))' % e.value, 'Q'
+        return '(%d)%%Z' % e.value, 'Z'
+
+    def expr(self, e, env, pre, want=None):
+        if isinstance(e, ast.Constant):
+            if e.value is None:
+                raise Unsupported('None outside an accepted pattern')
+            return self.const(e, want)
+        if isinstance(e, ast.Name):
+            if e.id not in env:
+                raise Unsupported('unknown name ' + e.id)
+            t = env[e.id]
+            return e.id, (self.inductive if isinstance(t, tuple) and t[0] == 'narrow' else t)
+        if self.is_self_attr(e):
+            return self.fget(e.attr)
+        if isinstance(e, ast.Attribute) and isinstance(e.value, ast.Name) and e.value.id in env:
+            t = env[e.value.id]
+            if isinstance(t, tuple) and t[0] == 'narrow':
+                for f, _, ft in self.cmds[t[1]]:
+                    if f == e.attr and ft is not None:
+                        return '%s_%s' % (e.value.id, f), ft
+                raise Unsupported('field %s of %s' % (e.attr, t[1]))
+            if isinstance(t, tuple) and t[0] == 'rec':
+                if e.attr not in t[1]:
+                    raise Unsupported('field %s of %s' % (e.attr, e.value.id))
+                return '%s_%s' % (e.value.id, e.attr), t[1][e.attr]
+            if t == 'depstate' and e.attr in ('base', 'iterations'):
+                return '(depstate_%s %s)' % (e.attr, e.value.id), ('Q' if e.attr == 'base' else ('list', 'Z'))
+            if t == 'key' and e.attr == 'factors':
+                return e.value.id, 'key'
+            raise Unsupported('attribute %s of %s' % (e.attr, e.value.id))
+        if isinstance(e, ast.Tuple):
+            if len(e.elts) != 2:
+                raise Unsupported('only pairs')
+            a, ta = self.expr(e.elts[0], env, pre)
+            b, tb = self.expr(e.elts[1], env, pre)
+            return '(%s, %s)' % (a, b), ('pair', ta, tb)
+        if isinstance(e, ast.BinOp):
+            op = {ast.Add: '+', ast.Sub: '-'}.get(type(e.op))
+            if op is None:
+                raise Unsupported('operator ' + type(e.op).__name__)
+            a, ta = self.expr(e.left, env, pre, want)
+            b, tb = self.expr(e.right, env, pre, ta)
+            if ta != tb or ta not in ('nat', 'Z', 'Q') or (ta == 'nat' and op == '-'):
+                raise Unsupported('arithmetic %s %s %s' % (ta, op, tb))
+            return '(%s %s %s)%%%s' % (a, op, b, ta), ta
+        if isinstance(e, ast.Subscript):
+            return self.read_subscript(e, env, pre)
+        if isinstance(e, ast.Call):
+            return self.call(e, env, pre)
+        if isinstance(e, (ast.Compare, ast.BoolOp)) or (isinstance(e, ast.UnaryOp) and isinstance(e.op, ast.Not)):
+            return self.cond(e, env, pre), 'bool'
+        raise Unsupported('expression ' + type(e).__name__)
+
+    def read_subscript(self, e, env, pre):
+        """self.f[i] (list -> IndexError, dict -> KeyError) and self.f[i][k] (list of dicts)"""
+        if self.is_self_attr(e.value):
+            cont, t = self.fget(e.value.attr)
+        elif isinstance(e.value, ast.Subscript):
+            cont, t = self.read_subscript(e.value, env, pre)
+        else:
+            raise Unsupported('subscript of ' + type(e.value).__name__)
+        if isinstance(t, tuple) and t[0] == 'list':
+            i, ti = self.expr(e.slice, env, pre, 'nat')
+            if ti != 'nat':
+                raise Unsupported('list index of type %s' % ti)
+            n = self.fresh()
+            pre.append(('nth_error %s %s' % (cont, i), 'EIndex', n))
+            return n, t[1]
+        if isinstance(t, tuple) and t[0] == 'dict':
+            k, tk = self.expr(e.slice, env, pre, t[1])
+            if tk != t[1]:
+                raise Unsupported('dict key of type %s, expected %s' % (tk, t[1]))
+            n = self.fresh()
+            pre.append(('alookup %s %s %s' % (_eqb(t[1]), k, cont), 'EKey', n))
+            return n, t[2]
+        raise Unsupported('subscript of a value of type %r' % (t,))
+
+    def kwargs(self, call, names):
+        """positional + keyword arguments of a call -> dict by parameter name (all must be given)"""
+        if len(call.args) > len(names):
+            raise Unsupported('too many arguments')
+        got = dict(zip(names, call.args))
+        for kw in call.keywords:
+            if kw.arg is None or kw.arg not in names or kw.arg in got:
+                raise Unsupported('keyword argument %s' % kw.arg)
+            got[kw.arg] = kw.value
+        if sorted(got) != sorted(names):
+            raise Unsupported('arguments %s given, %s expected' % (sorted(got), names))
+        return got
+
+    def call(self, e, env, pre):
+        f = e.func
+        if isinstance(f, ast.Name) and f.id == 'len' and len(e.args) == 1 and not e.keywords:
+            x, tx = self.expr(e.args[0], env, pre)
+            if not (isinstance(tx, tuple) and tx[0] == 'list'):
+                raise Unsupported('len of %r' % (tx,))
+            return '(length %s)' % x, 'nat'
+        # x.copy() / tuple(x): values are immutable in Gallina
+        if isinstance(f, ast.Attribute) and f.attr == 'copy' and not e.args and not e.keywords:
+            return self.expr(f.value, env, pre)
+        if isinstance(f, ast.Name) and f.id == 'tuple' and len(e.args) == 1 and not e.keywords:
+            return self.expr(e.args[0], env, pre)
+        # DepKey(())
+        if isinstance(f, ast.Name) and f.id == 'DepKey' and len(e.args) == 1 and not e.keywords \
+                and isinstance(e.args[0], ast.Tuple) and not e.args[0].elts:
+            return '(@nil Z)', 'key'
+        # DepKey.from_voltages(voltages=X, resolution=self.resolution)
+        if isinstance(f, ast.Attribute) and isinstance(f.value, ast.Name) and f.value.id == 'DepKey' and f.attr == 'from_voltages':
+            a = self.kwargs(e, ['voltages', 'resolution'])
+            if not (self.is_self_attr(a['resolution']) and a['resolution'].attr == 'resolution'):
+                raise Unsupported('resolution argument')
+            x, tx = self.expr(a['voltages'], env, pre)
+            if tx != ('list', 'Q'):
+                raise Unsupported('from_voltages of %r' % (tx,))
+            return '(mk_key %s)' % x, 'key'
+        # DepState(base, iterations)
+        if isinstance(f, ast.Name) and f.id == 'DepState':
+            a = self.kwargs(e, ['base', 'iterations'])
+            b, tb = self.expr(a['base'], env, pre)
+            it, ti = self.expr(a['iterations'], env, pre)
+            if tb != 'Q' or ti != ('list', 'Z'):
+                raise Unsupported('DepState arguments')
+            return '(%s, %s)' % (b, it), 'depstate'
+        # command constructors
+        if isinstance(f, ast.Name) and f.id in self.cmds:
+            fields = self.cmds[f.id]
+            a = self.kwargs(e, [n for n, _, _ in fields])
+            parts = []
+            for n, _, t in fields:
+                if t is None:
+                    raise Unsupported('constructor with an opaque field')
+                x, tx = self.expr(a[n], env, pre, t)
+                if tx != t:
+                    raise Unsupported('%s.%s gets %r' % (f.id, n, tx))
+                parts.append(x)
+            return '(%s%s %s)' % (self.cp, f.id, ' '.join(parts)), self.inductive
+        # d.get(k, None)  and  dd.setdefault(a, {}).get(b, None)
+        if isinstance(f, ast.Attribute) and f.attr == 'get' and len(e.args) == 2 and not e.keywords \
+                and isinstance(e.args[1], ast.Constant) and e.args[1].value is None:
+            if self.is_self_attr(f.value):
+                d, td = self.fget(f.value.attr)
+                if not (isinstance(td, tuple) and td[0] == 'dict'):
+                    raise Unsupported('.get on %r' % (td,))
+                k, tk = self.expr(e.args[0], env, pre, td[1])
+                if tk != td[1]:
+                    raise Unsupported('dict key type')
+                return '(alookup %s %s %s)' % (_eqb(td[1]), k, d), ('opt', td[2])
+            g = f.value
+            if isinstance(g, ast.Call) and isinstance(g.func, ast.Attribute) and g.func.attr == 'setdefault' \
+                    and self.is_self_attr(g.func.value) and len(g.args) == 2 and not g.keywords \
+                    and isinstance(g.args[1], ast.Dict) and not g.args[1].keys:
+                d, td = self.fget(g.func.value.attr)
+                if not (isinstance(td, tuple) and td[0] == 'dict2'):
+                    raise Unsupported('setdefault on %r' % (td,))
+                a, ta = self.expr(g.args[0], env, pre, td[1])
+                b, tb = self.expr(e.args[0], env, pre, td[2])
+                if (ta, tb) != (td[1], td[2]):
+                    raise Unsupported('dict2 key types')
+                self.setdefault_seen.add((g.func.value.attr, ast.dump(g.args[0])))
+                return '(alookup %s (%s, %s) %s)' % (_eqb(('pair', td[1], td[2])), a, b, d), ('opt', td[3])
+        # all(c for x in l)
+        if isinstance(f, ast.Name) and f.id == 'all' and len(e.args) == 1 and isinstance(e.args[0], ast.GeneratorExp):
+            g = e.args[0]
+            if len(g.generators) != 1 or g.generators[0].ifs or not isinstance(g.generators[0].target, ast.Name):
+                raise Unsupported('generator')
+            l, tl = self.expr(g.generators[0].iter, env, pre)
+            if not (isinstance(tl, tuple) and tl[0] == 'list'):
+                raise Unsupported('all over %r' % (tl,))
+            x = g.generators[0].target.id
+            if x in env:
+                raise Unsupported('generator variable shadows ' + x)
+            inner = []
+            c = self.cond(g.elt, dict(env, **{x: tl[1]}), inner)
+            if inner:
+                raise Unsupported('failing read inside a generator')
+            return '(forallb (fun %s => %s) %s)' % (x, c, l), 'bool'
+        raise Unsupported('call ' + ast.unparse(e)[:60])
+
+    def cond(self, e, env, pre):
+        """boolean reading of an expression (python truth value)"""
+        if isinstance(e, ast.BoolOp):
+            # python evaluates lazily; the operands accepted here cannot fail except through `pre` reads, which are refused
+            parts = []
+            for v in e.values:
+                inner = []
+                parts.append(self.cond(v, env, inner))
+                if inner and parts[:-1]:
+                    raise Unsupported('failing read in a lazily evaluated operand')
+                pre.extend(inner)
+            return '(%s)' % (' || ' if isinstance(e.op, ast.Or) else ' && ').join(parts)
+        if isinstance(e, ast.UnaryOp) and isinstance(e.op, ast.Not):
+            return '(negb %s)' % self.cond(e.operand, env, pre)
+        if isinstance(e, ast.Compare):
+            if len(e.ops) != 1:
+                raise Unsupported('chained comparison')
+            op = e.ops[0]
+            if isinstance(op, (ast.In, ast.NotIn)):
+                d, td = self.expr(e.comparators[0], env, pre)
+                if not (isinstance(td, tuple) and td[0] == 'dict'):
+                    raise Unsupported('`in` on %r' % (td,))
+                a, ta = self.expr(e.left, env, pre, td[1])
+                if ta != td[1]:
+                    raise Unsupported('`in` key type')
+                r = '(is_some (alookup %s %s %s))' % (_eqb(td[1]), a, d)
+                return r if isinstance(op, ast.In) else '(negb %s)' % r
+            a, ta = self.expr(e.left, env, pre)
+            b, tb = self.expr(e.comparators[0], env, pre, ta if isinstance(ta, str) else (ta[1] if ta[0] == 'opt' else None))
+            if isinstance(op, (ast.Eq, ast.NotEq)):
+                if isinstance(ta, tuple) and ta[0] == 'opt' and tb == ta[1]:
+                    r = '(opt_is %s %s %s)' % (_eqb(tb), a, b)
+                elif ta == tb:
+                    r = '(%s %s %s)' % (_eqb(ta), a, b)
+                else:
+                    raise Unsupported('comparison of %r with %r' % (ta, tb))
+                return r if isinstance(op, ast.Eq) else '(negb %s)' % r
+            sym = {ast.Lt: '<?', ast.LtE: '<=?', ast.Gt: '>?', ast.GtE: '>=?'}.get(type(op))
+            if sym is None or ta != tb or ta not in ('nat', 'Z'):
+                raise Unsupported('comparison ' + type(op).__name__)
+            if ta == 'nat':
+                if sym != '<?':
+                    raise Unsupported('nat comparison other than <')
+                return '(Nat.ltb %s %s)' % (a, b)
+            return '(%s %s %s)%%Z' % (a, sym, b)
+        x, t = self.expr(e, env, pre)
+        if t == 'bool':
+            return x
+        if t == 'Q':
+            return '(negb (Qeq_bool %s 0))' % x
+        if t == 'key' or (isinstance(t, tuple) and t[0] == 'list'):
+            return '(negb (is_nil %s))' % x
+        raise Unsupported('truth value of %r' % (t,))
+
+    @staticmethod
+    def wrap(pre, body):
+        """bind the failing reads (in evaluation order) around body"""
+        for look, err_, name in reversed(pre):
+            body = 'match %s with\n| None => Err %s\n| Some %s =>\n%s\nend' % (look, err_, name, body)
+        return body
+
+    # ---- statements
+    def block(self, stmts, env, k):
+        """Gallina term of type res <record>; k(env) = text of the continuation (what follows the block)"""
+        if not stmts:
+            return k(env)
+        s, rest = stmts[0], stmts[1:]
+        nxt = lambda env2: self.block(rest, env2, k)
+        if isinstance(s, ast.Pass) or (isinstance(s, ast.Expr) and isinstance(s.value, ast.Constant) and isinstance(s.value.value, str)):
+            return nxt(env)
+        if isinstance(s, ast.Return):
+            if s.value is not None:
+                raise Unsupported('return with a value')
+            return 'Ok st'
+        if isinstance(s, ast.Raise):
+            if isinstance(s.exc, ast.Call) and isinstance(s.exc.func, ast.Name) and s.exc.func.id == 'NotImplementedError':
+                return 'Err ENotImpl'
+            raise Unsupported('raise ' + ast.unparse(s)[:40])
+        if isinstance(s, ast.Assert):
+            if s.msg is not None:
+                raise Unsupported('assert with message')
+            pre = []
+            c = self.cond(s.test, env, pre)
+            return self.wrap(pre, 'if %s then\n%s\nelse Err EAssert' % (c, nxt(env)))
+        if isinstance(s, ast.Assign):
+            if len(s.targets) != 1:
+                raise Unsupported('chained assignment')
+            return self.assign(s.targets[0], s.value, env, nxt, rest)
+        if isinstance(s, ast.AugAssign):
+            op = {ast.Add: ast.Add, ast.Sub: ast.Sub}.get(type(s.op))
+            if op is None:
+                raise Unsupported('augmented operator')
+            # target op= value  ==  target = target op value  (the target is read once, as python does for these targets)
+            read = ast.copy_location(_as_load(s.target), s.target)
+            return self.assign(s.target, ast.BinOp(left=read, op=op(), right=s.value), env, nxt)
+        if isinstance(s, ast.Expr) and isinstance(s.value, ast.Call):
+            return self.call_stmt(s.value, env, nxt)
+        if isinstance(s, ast.If):
+            return self.if_stmt(s, env, nxt)
+        if isinstance(s, ast.Continue):
+            if not self.loop_next:
+                raise Unsupported('continue outside a loop')
+            return self.loop_next[-1]
+        if isinstance(s, ast.For):
+            return self.for_stmt(s, rest, env, k)
+        raise Unsupported('statement ' + type(s).__name__)
+
+    def mentions(self, node, attr):
+        return any(self.is_self_attr(x) and x.attr == attr for x in ast.walk(node)) or \
+            any(isinstance(x, ast.Call) and self.is_self_attr(x.func) for x in ast.walk(node))
+
+    def dead_store(self, attr, rest):
+        for s in rest:
+            if isinstance(s, ast.Assign) and len(s.targets) == 1 and self.is_self_attr(s.targets[0]) and s.targets[0].attr == attr \
+                    and not self.mentions(s.value, attr):
+                return True
+            if self.mentions(s, attr):
+                return False
+        return False
+
+    def for_stmt(self, s, rest, env, k):
+        """for x in <list>:  /  for i, (a, b) in enumerate(zip(<list>, <list>)):   ->  a Fixpoint over the list(s) that threads
+        the object state; `continue` = next element; the statements after the loop are the exhausted case.  All locals that
+        are in scope are passed along as parameters; the body must not assign plain locals that outlive it."""
+        if s.orelse:
+            raise Unsupported('for-else')
+        if any(isinstance(t, tuple) and t[0] == 'narrow' for t in env.values()):
+            raise Unsupported('loop inside an isinstance branch')
+        pre = []
+        it = s.iter
+        binds = []                    # (list text, element pattern text, [(name, type)])
+        counter = None
+        if isinstance(it, ast.Call) and isinstance(it.func, ast.Name) and it.func.id == 'enumerate' and len(it.args) == 1 and not it.keywords:
+            z = it.args[0]
+            if not (isinstance(z, ast.Call) and isinstance(z.func, ast.Name) and z.func.id == 'zip' and len(z.args) == 2 and not z.keywords
+                    and isinstance(s.target, ast.Tuple) and len(s.target.elts) == 2 and isinstance(s.target.elts[0], ast.Name)
+                    and isinstance(s.target.elts[1], ast.Tuple) and len(s.target.elts[1].elts) == 2
+                    and all(isinstance(x, ast.Name) for x in s.target.elts[1].elts)):
+                raise Unsupported('only `for i, (a, b) in enumerate(zip(x, y))`')
+            counter = s.target.elts[0].id
+            for arg, name in zip(z.args, s.target.elts[1].elts):
+                l, tl = self.expr(arg, env, pre)
+                if not (isinstance(tl, tuple) and tl[0] == 'list'):
+                    raise Unsupported('zip over %r' % (tl,))
+                binds.append((l, name.id, tl[1]))
+        elif isinstance(s.target, ast.Name):
+            l, tl = self.expr(it, env, pre)
+            if not (isinstance(tl, tuple) and tl[0] == 'list'):
+                raise Unsupported('for over %r' % (tl,))
+            binds.append((l, s.target.id, tl[1]))
+        else:
+            raise Unsupported('for target')
+        if pre:
+            raise Unsupported('failing read in the loop header')
+        new = [n for _, n, _ in binds] + ([counter] if counter else [])
+        for n in new:
+            if n in env or n == 'st':
+                raise Unsupported('loop variable shadows ' + n)
+        for sub in ast.walk(s):
+            if isinstance(sub, (ast.Assign, ast.AugAssign)):
+                for t in (sub.targets if isinstance(sub, ast.Assign) else [sub.target]):
+                    if isinstance(t, ast.Name) and t.id in env:
+                        raise Unsupported('the loop body assigns the outer local ' + t.id)
+            if isinstance(sub, ast.For) and sub is not s:
+                raise Unsupported('nested loop')
+            if isinstance(sub, ast.Break):
+                raise Unsupported('break')
+        self.nloops += 1
+        fname = 'gen_%s_loop%d' % (self.cur_method.lstrip('_'), self.nloops)
+        outer = []                   # locals in scope, passed through unchanged
+        for n, t in env.items():
+            if isinstance(t, tuple) and t[0] == 'rec':
+                outer.extend(('%s_%s' % (n, f), ft) for f, ft in t[1].items())
+            else:
+                outer.append((n, t))
+        ls = ['l%d' % (i + 1) for i in range(len(binds))]
+        again = '%s %s %s st %s' % (fname, ' '.join(l + "'" for l in ls), '(S %s)' % counter if counter else '',
+                                   ' '.join(n for n, _ in outer))
+        benv = dict(env)
+        for _, n, t in binds:
+            benv[n] = t
+        if counter:
+            benv[counter] = 'nat'
+        self.loop_next.append(again)
+        body = self.block(s.body, benv, lambda env2: again)
+        self.loop_next.pop()
+        after = self.block(rest, env, k)
+        pat = ', '.join("%s :: %s'" % (n, l) for (_, n, _), l in zip(binds, ls))
+        text = 'Fixpoint %s %s %s (st : %s) %s {struct l1} : res %s :=\nmatch %s with\n| %s =>\n%s\n| %s =>\n%s\nend.' % (
+            fname, ' '.join('(%s : list %s)' % (l, _gtp(t)) for l, (_, _, t) in zip(ls, binds)),
+            '(%s : nat)' % counter if counter else '', self.s.record,
+            ' '.join('(%s : %s)' % (n, _gt(t)) for n, t in outer), self.s.record,
+            ', '.join(ls), pat, body, ', '.join('_' for _ in ls), after)
+        self.aux.append(text)
+        return '%s %s %s st %s' % (fname, ' '.join(l for l, _, _ in binds), '0%nat' if counter else '', ' '.join(n for n, _ in outer))
+
+    def assign(self, target, value, env, nxt, rest_stmts=()):
+        pre = []
+        if isinstance(target, ast.Name):
+            if target.id == 'st' or target.id in ('self',):
+                raise Unsupported('reserved name')
+            # x = obj.ext(...)  (a call that may raise: bound with the error propagated)
+            if isinstance(value, ast.Call) and isinstance(value.func, ast.Attribute) and value.func.attr in self.s.externals \
+                    and not self.is_self_attr(value.func):
+                gname, pnames, flatten, rtype = self.s.externals[value.func.attr]
+                obj, tobj = self.expr(value.func.value, env, pre)
+                a = self.kwargs(value, pnames)
+                args = [self.expr(a[n], env, pre) for n in pnames]
+                txt = flatten(obj, tobj, args)
+                body = 'match %s with\n| Err e => Err e\n| Ok %s =>\n%s\nend' % (txt, target.id, nxt(dict(env, **{target.id: rtype})))
+                return self.wrap(pre, body)
+            v, tv = self.expr(value, env, pre, env.get(target.id) if isinstance(env.get(target.id), str) else None)
+            if target.id in env and env[target.id] != tv:
+                raise Unsupported('variable %s re-typed' % target.id)
+            return self.wrap(pre, 'let %s := %s in\n%s' % (target.id, v, nxt(dict(env, **{target.id: tv}))))
+        if self.is_self_attr(target):
+            cur, t = self.fget(target.attr)
+            if isinstance(value, ast.Constant) and value.value is None:
+                # `self.f = None` is accepted only as a dead store: self.f is assigned again, unconditionally, by a later
+                # statement of the same block before anything reads it
+                if not self.dead_store(target.attr, rest_stmts):
+                    raise Unsupported('self.%s = None is not a dead store' % target.attr)
+                return nxt(env)
+            if (isinstance(value, ast.List) and not value.elts and isinstance(t, tuple) and t[0] == 'list') or \
+                    (isinstance(value, ast.Dict) and not value.keys and isinstance(t, tuple) and t[0] == 'dict'):
+                return 'let st := %s in\n%s' % (self.fupd(target.attr, '[]'), nxt(env))
+            v, tv = self.expr(value, env, pre, t if isinstance(t, str) else None)
+            if tv != t:
+                raise Unsupported('self.%s : %r gets %r' % (target.attr, t, tv))
+            return self.wrap(pre, 'let st := %s in\n%s' % (self.fupd(target.attr, v), nxt(env)))
+        if isinstance(target, ast.Subscript) and self.is_self_attr(target.value):
+            f = target.value.attr
+            cont, t = self.fget(f)
+            if isinstance(t, tuple) and t[0] == 'list':
+                i, ti = self.expr(target.slice, env, pre, 'nat')
+                v, tv = self.expr(value, env, pre, t[1] if isinstance(t[1], str) else None)
+                if t[1] == ('opt', tv):
+                    v = '(Some %s)' % v           # a float stored in a list of floats-or-nan
+                elif tv != t[1]:
+                    raise Unsupported('list element type')
+                if ti != 'nat':
+                    raise Unsupported('list index type')
+                n = self.fresh('l')
+                return self.wrap(pre, 'match set_nth %s %s %s with\n| None => Err EIndex\n| Some %s =>\nlet st := %s in\n%s\nend'
+                                 % (i, v, cont, n, self.fupd(f, n), nxt(env)))
+            if isinstance(t, tuple) and t[0] == 'dict':
+                k_, tk = self.expr(target.slice, env, pre, t[1])
+                v, tv = self.expr(value, env, pre, t[2] if isinstance(t[2], str) else None)
+                if tk != t[1] or tv != t[2]:
+                    raise Unsupported('dict store types %r %r' % (tk, tv))
+                return self.wrap(pre, 'let st := %s in\n%s' % (self.fupd(f, '(aset %s %s %s %s)' % (_eqb(t[1]), k_, v, cont)), nxt(env)))
+            raise Unsupported('store into %r' % (t,))
+        if isinstance(target, ast.Subscript) and isinstance(target.value, ast.Subscript) and self.is_self_attr(target.value.value):
+            f = target.value.value.attr
+            cont, t = self.fget(f)
+            if isinstance(t, tuple) and t[0] == 'list' and isinstance(t[1], tuple) and t[1][0] == 'dict':
+                # python evaluates the right hand side, then self.f[i] (IndexError), then stores into that dict
+                v, tv = self.expr(value, env, pre, t[1][2] if isinstance(t[1][2], str) else None)
+                i, ti = self.expr(target.value.slice, env, pre, 'nat')
+                k_, tk = self.expr(target.slice, env, pre, t[1][1])
+                if (ti, tk, tv) != ('nat', t[1][1], t[1][2]):
+                    raise Unsupported('nested store types')
+                d, n = self.fresh('d'), self.fresh('l')
+                body = ('match nth_error %s %s with\n| None => Err EIndex\n| Some %s =>\nmatch set_nth %s (aset %s %s %s %s) %s with\n'
+                        '| None => Err EIndex\n| Some %s =>\nlet st := %s in\n%s\nend\nend'
+                        % (cont, i, d, i, _eqb(t[1][1]), k_, v, d, cont, n, self.fupd(f, n), nxt(env)))
+                return self.wrap(pre, body)
+            if isinstance(t, tuple) and t[0] == 'dict2':
+                a, ta = self.expr(target.value.slice, env, pre, t[1])
+                if (f, ast.dump(target.value.slice)) not in self.setdefault_seen:
+                    raise Unsupported('self.%s[a][b] = v without a preceding self.%s.setdefault(a, {})' % (f, f))
+                b, tb = self.expr(target.slice, env, pre, t[2])
+                v, tv = self.expr(value, env, pre)
+                if (ta, tb, tv) != (t[1], t[2], t[3]):
+                    raise Unsupported('dict2 store types')
+                new = '(aset %s (%s, %s) %s %s)' % (_eqb(('pair', t[1], t[2])), a, b, v, cont)
+                return self.wrap(pre, 'let st := %s in\n%s' % (self.fupd(f, new), nxt(env)))
+        raise Unsupported('assignment target ' + ast.unparse(target)[:40])
+
+    def call_stmt(self, c, env, nxt):
+        f = c.func
+        pre = []
+        if isinstance(f, ast.Attribute) and f.attr == 'append' and self.is_self_attr(f.value) and len(c.args) == 1 and not c.keywords:
+            cont, t = self.fget(f.value.attr)
+            if not (isinstance(t, tuple) and t[0] == 'list'):
+                raise Unsupported('append to %r' % (t,))
+            v, tv = self.expr(c.args[0], env, pre)
+            if tv != t[1]:
+                raise Unsupported('append of %r to %r' % (tv, t))
+            return self.wrap(pre, 'let st := %s in\n%s' % (self.fupd(f.value.attr, '(%s ++ [%s])' % (cont, v)), nxt(env)))
+        if self.is_self_attr(f) and f.attr in dict(self.s.methods):
+            params = dict(self.s.methods)[f.attr]
+            a = self.kwargs(c, [p for p, _ in params])
+            args = []
+            for p, t in params:
+                if isinstance(t, tuple) and t[0] == 'rec':
+                    raise Unsupported('call with a record argument')
+                x, tx = self.expr(a[p], env, pre, t if isinstance(t, str) else None)
+                if tx != t:
+                    raise Unsupported('argument %s : %r gets %r' % (p, t, tx))
+                args.append(x)
+            return self.wrap(pre, 'match gen_%s st %s with\n| Err e => Err e\n| Ok st =>\n%s\nend'
+                             % (f.attr.lstrip('_'), ' '.join(args), nxt(env)))
+        raise Unsupported('call statement ' + ast.unparse(c)[:60])
+
+    def if_stmt(self, s, env, nxt):
+        t = s.test
+        # isinstance(x, Cls)
+        if isinstance(t, ast.Call) and isinstance(t.func, ast.Name) and t.func.id == 'isinstance' and len(t.args) == 2 \
+                and isinstance(t.args[0], ast.Name) and isinstance(t.args[1], ast.Name) and t.args[1].id in self.cmds:
+            x = t.args[0].id
+            if env.get(x) != self.inductive:
+                raise Unsupported('isinstance on %s' % x)
+            cname = t.args[1].id
+            binders = ' '.join('%s_%s' % (x, f) for f, _, ft in self.cmds[cname] if ft is not None)
+            yes = self.block(s.body, dict(env, **{x: ('narrow', cname)}), nxt)
+            no = self.block(s.orelse, env, nxt)
+            return 'match %s with\n| %s%s %s =>\n%s\n| _ =>\n%s\nend' % (x, self.cp, cname, binders, yes, no)
+        # x is None
+        if isinstance(t, ast.Compare) and len(t.ops) == 1 and isinstance(t.ops[0], ast.Is) and isinstance(t.left, ast.Name) \
+                and isinstance(t.comparators[0], ast.Constant) and t.comparators[0].value is None:
+            x = t.left.id
+            tx = env.get(x)
+            if not (isinstance(tx, tuple) and tx[0] == 'opt'):
+                raise Unsupported('`is None` on %r' % (tx,))
+            yes = self.block(s.body, env, nxt)
+            no = self.block(s.orelse, dict(env, **{x: tx[1]}), nxt)
+            return 'match %s with\n| None =>\n%s\n| Some %s =>\n%s\nend' % (x, yes, x, no)
+        pre = []
+        c = self.cond(t, env, pre)
+        return self.wrap(pre, 'if %s then\n%s\nelse\n%s' % (c, self.block(s.body, env, nxt), self.block(s.orelse, env, nxt)))
+
+    def method_text(self, name, params):
+        ms = [n for n in self.cdef.body if isinstance(n, ast.FunctionDef) and n.name == name]
+        if len(ms) != 1:
+            raise Unsupported('method %s.%s not found' % (self.s.cls, name))
+        m = ms[0]
+        a = m.args
+        if m.decorator_list or a.vararg or a.kwarg or a.kwonlyargs or a.defaults or a.posonlyargs:
+            raise Unsupported('method signature of ' + name)
+        if [x.arg for x in a.args] != ['self'] + [p for p, _ in params]:
+            raise Unsupported('parameters of %s are %s' % (name, [x.arg for x in a.args]))
+        self.setdefault_seen = set()
+        self.cur_method, self.nloops, self.aux, self.loop_next = name, 0, [], []
+        env = {p: t for p, t in params}
+        body = self.block(m.body, env, lambda env2: 'Ok st')
+        flat = []
+        for p, t in params:
+            if isinstance(t, tuple) and t[0] == 'rec':
+                flat.extend(('%s_%s' % (p, f), ft) for f, ft in t[1].items())
+            else:
+                flat.append((p, t))
+        return '\n\n'.join(self.aux + ['Definition gen_%s (st : %s) %s : res %s :=\n%s.' % (
+            name.lstrip('_'), self.s.record, ' '.join('(%s : %s)' % (p, _gt(t)) for p, t in flat), self.s.record, body)])
+
+    def translate(self):
+        return [self.record_text()] + [self.method_text(n, p) for n, p in self.s.methods]
+
+
+def _as_load(target):
+    t = ast.parse(ast.unparse(target), mode='eval').body
+    return t
+
+
+CMD_CLASSES = [
+    ('LoopLabel', [('idx', 'int', 'Z'), ('count', 'int', 'Z')]),
+    ('Increment', [('channel', 'int', 'nat'), ('value', 'float', 'Q'), ('dependency_key', 'DepKey', 'key')]),
+    ('Set', [('channel', 'int', 'nat'), ('value', 'float', 'Q'), ('key', 'DepKey', 'key')]),
+    ('Wait', [('duration', 'TimeType', 'Q')]),
+    ('LoopJmp', [('idx', 'int', 'Z')]),
+    ('Play', [('waveform', 'Waveform', None), ('channels', 'Tuple[ChannelID]', None)]),
+]
+
+VM_SCHEMA = ObjSchema(
+    'LinSpaceVM', 'gvm', 'mkGvm', 'gvm_',
+    [('current_values', ('list', ('opt', 'Q'))), ('time', 'Q'), ('registers', ('list', ('dict', 'key', 'Q'))),
+     ('history', ('list', ('pair', 'Q', ('list', ('opt', 'Q'))))), ('commands', ('list', 'gcmd')),
+     ('label_targets', ('dict', 'Z', 'nat')), ('label_counts', ('dict', 'Z', 'Z')), ('current_command', 'nat')],
+    [('change_state', [('cmd', 'gcmd')]), ('step', []), ('set_commands', [('commands', ('list', 'gcmd'))])], CMD_CLASSES)
+
+
+def _req_inc(obj, tobj, args):
+    (prev, tprev), (fs_, tfs) = args
+    if tobj != 'depstate' or tprev != 'depstate' or tfs != ('list', 'Q'):
+        raise Unsupported('required_increment_from arguments')
+    return 'gen_required_increment_from (depstate_base %s) (depstate_iterations %s) (depstate_base %s) (depstate_iterations %s) %s' % (
+        obj, obj, prev, prev, fs_)
+
+
+TS_SCHEMA = ObjSchema(
+    '_TranslationState', 'gts', 'mkGts', 'gts_',
+    [('label_num', 'Z'), ('commands', ('list', 'gcmd')), ('iterations', ('list', 'Z')), ('active_dep', ('dict', 'nat', 'key')),
+     ('dep_states', ('dict2', 'nat', 'key', 'depstate')), ('plain_voltage', ('dict', 'nat', 'Q')), ('resolution', None)],
+    [('set_voltage', [('channel', 'nat'), ('value', 'Q')]),
+     ('_set_indexed_voltage', [('channel', 'nat'), ('base', 'Q'), ('factors', ('list', 'Q'))]),
+     # LinSpaceHold: duration_factors is None or a mapping; both None and {} are falsy -> represented by a list
+     ('_add_hold_node', [('node', ('rec', {'bases': ('list', 'Q'), 'factors': ('list', ('opt', ('list', 'Q'))),
+                                          'duration_base': 'Q', 'duration_factors': ('list', 'Q')}))])],
+    CMD_CLASSES, externals={'required_increment_from': ('gen_required_increment_from', ['previous', 'factors'], _req_inc, 'Q')})
+
+
+def translate_objects(path):
+    with open(path) as fh:
+        tree = ast.parse(fh.read())
+    vm = ObjTranslator(tree, VM_SCHEMA)
+    ts = ObjTranslator(tree, TS_SCHEMA)
+    parts = ['(* GENERATED by /verif/translate/py2gallina_c17.py (ObjTranslator) from %s: the command dataclasses, '
+             'LinSpaceVM.change_state/step/set_commands, _TranslationState.set_voltage/_set_indexed_voltage/_add_hold_node -- do not edit *)' % path,
+             'From Coq Require Import ZArith QArith List Bool.',
+             'Require Import QV.C17.Model QV.C17.GenLib QV.C17.Gen_linspace.', 'Import ListNotations.', '',
+             vm.inductive_text(), ''] + vm.translate() + [''] + ts.translate() + ['']
+    return '\n\n'.join(p for p in parts)
+
+
+if __name__ == '__main__' and len(sys.argv) == 2:
+    print(translate_objects(sys.argv[1]))
